@@ -1406,9 +1406,10 @@ struct C17Row {
 /// serializes to and is known to load strictly as `v1`.
 fn c17_file(file: &ArxmlFile, root: &Element, text: &str, targets: &[AutosarVersion], st: &mut BTreeMap<String, u64>, rows: &mut Vec<C17Row>, fails: &mut Vec<Fail>, log: &mut Vec<String>) {
     let v1 = file.version();
-    let mut bump = |k: String| *st.entry(k).or_insert(0) += 1;
     let doc = hash_str(text) & 0xffff_ffff;
+    let mut lenient_done = false;
     for &v2 in targets {
+        let mut bump = |k: String| *st.entry(k).or_insert(0) += 1;
         let (errs, mask) = file.check_version_compatibility(v2);
         let compat = errs.is_empty();
         let rel = relabel(text, v1, v2);
@@ -1433,6 +1434,14 @@ fn c17_file(file: &ArxmlFile, root: &Element, text: &str, targets: &[AutosarVers
             fails.push(Fail { mismatch: false, key: "c17-B".into(), detail: format!("{where_}: returned mask {mask:#x} {} the target, but the check lists {} incompatibilities [{}]", if mask & v2 as u32 != 0 { "contains" } else { "lacks" }, errs.len(), compat_text(&errs)) });
         }
         drop(errs);
+        if !compat && v2 != v1 && !lenient_done {
+            // the diagonal of the version pairs with content that is NOT valid for the file's own version
+            lenient_done = true;
+            c17_lenient_diagonal(&rel, v1, v2, st, rows, fails, log);
+            if !fails.is_empty() {
+                return;
+            }
+        }
         let before = dump_str(root);
         let r = file.set_version(v2);
         let after = dump_str(root);
@@ -1477,6 +1486,69 @@ fn c17_file(file: &ArxmlFile, root: &Element, text: &str, targets: &[AutosarVers
             return;
         }
     }
+}
+
+/// C17 where the file's content is not valid for the file's OWN version: `rel` (a text that is strictly valid as `v1`,
+/// relabelled `v2`, for which the check listed incompatibilities) is loaded leniently; the resulting file is labelled `v2`
+/// and keeps what `v2` does not permit.  Oracles A, B, C for the pair (v2, v2): the check for the file's own version lists
+/// nothing <=> its text loads strictly, the mask contains v2 <=> nothing listed, set_version(v2) succeeds <=> nothing listed
+/// and changes nothing.
+fn c17_lenient_diagonal(rel: &str, v1: AutosarVersion, v2: AutosarVersion, st: &mut BTreeMap<String, u64>, rows: &mut Vec<C17Row>, fails: &mut Vec<Fail>, log: &mut Vec<String>) {
+    let mut bump = |k: &str| *st.entry(k.to_string()).or_insert(0) += 1;
+    let model = AutosarModel::new();
+    let file = match model.load_buffer(rel.as_bytes(), "lenient.arxml", false) {
+        Ok((f, _)) => f,
+        Err(e) => {
+            bump("c17_lenient_load_refused");
+            log.push(format!("c17 lenient {} relabelled {}: load refused: {e}", vname(v1), vname(v2)));
+            return;
+        }
+    };
+    bump("c17_lenient_docs");
+    let v = file.version();
+    let where_ = format!("{} relabelled {} and loaded leniently, {} -> {}", vname(v1), vname(v2), vname(v), vname(v));
+    if v != v2 {
+        fails.push(Fail { mismatch: false, key: "c17-C".into(), detail: format!("{where_}: the leniently loaded file reports another version than its label") });
+        return;
+    }
+    let root = model.root_element();
+    let (errs, mask) = file.check_version_compatibility(v);
+    let compat = errs.is_empty();
+    let strict = match file.serialize() {
+        Ok(t) => strict_load(&t),
+        Err(e) => Err(format!("serialize: {e}")),
+    };
+    bump(if compat { "c17_lenient_diag_compat_yes" } else { "c17_lenient_diag_compat_no" });
+    if compat != strict.is_ok() {
+        fails.push(Fail {
+            mismatch: false,
+            key: "c17-A".into(),
+            detail: match &strict {
+                Ok(_) => format!("{where_}: the check lists [{}] but the text of the file loads strictly", compat_text(&errs)),
+                Err(e) => format!("{where_}: the check lists nothing but the text of the file fails strict validation: {e}"),
+            },
+        });
+    }
+    if (mask & v as u32 != 0) != compat {
+        fails.push(Fail { mismatch: false, key: "c17-B".into(), detail: format!("{where_}: returned mask {mask:#x} {} the target, but the check lists {} incompatibilities [{}]", if mask & v as u32 != 0 { "contains" } else { "lacks" }, errs.len(), compat_text(&errs)) });
+    }
+    drop(errs);
+    let before = dump_str(&root);
+    let r = file.set_version(v);
+    let after = dump_str(&root);
+    bump(if r.is_ok() { "c17_lenient_diag_set_ok" } else { "c17_lenient_diag_set_err" });
+    if r.is_ok() != compat {
+        fails.push(Fail { mismatch: false, key: "c17-C".into(), detail: format!("{where_}: set_version to the version the file already has {} although the check lists {}", res_str(&r), if compat { "nothing" } else { "incompatibilities" }) });
+    }
+    if before != after {
+        fails.push(Fail { mismatch: false, key: "c17-C".into(), detail: format!("{where_}: set_version ({}) altered the content", res_str(&r)) });
+    }
+    if file.version() != v {
+        fails.push(Fail { mismatch: false, key: "c17-C".into(), detail: format!("{where_}: after set_version ({}) the file reports {}", res_str(&r), vname(file.version())) });
+    }
+    let ans = format!("errs={} mask={mask:#x} strict={} set={}", if compat { 0 } else { 1 }, if strict.is_ok() { "ok" } else { "err" }, if r.is_ok() { "ok" } else { "err" });
+    log.push(format!("c17 {where_}: {ans}"));
+    rows.push(C17Row { req: format!("compat lenient doc={:08x} {} -> {}", hash_str(rel) & 0xffff_ffff, vname(v), vname(v)), ans });
 }
 
 // ------------------------------------------------------------------------------------------------------------------
